@@ -16,6 +16,9 @@ BUILD = os.path.join(VERIF, "build")
 SEARCHERS = {
     "itime/": ("itime", "src/shared"),
     "itime_static/": ("itime", "crates/jiff-static/src/shared"),
+    # units that import the itime unit: the same searcher decides the itime functions among their obligations
+    "posix/": ("itime", "src/shared"),
+    "posix_static/": ("itime", "crates/jiff-static/src/shared"),
 }
 
 
@@ -60,3 +63,33 @@ def replay(obligation, failing_input, repo):
     if w:
         print(w["witness"])
     return w is not None
+
+
+def run_finding_demos(ids, repo):
+    """Replay the concrete inputs of known findings through the public API of /repo's current tree.
+    Returns {id: (reproduced: bool, text)}."""
+    if not ids:
+        return {}
+    src = os.path.join(VERIF, "replay", "findings")
+    dst = os.path.join(BUILD, "replay-findings")
+    os.makedirs(os.path.join(dst, "src"), exist_ok=True)
+    t = open(os.path.join(src, "Cargo.toml.tmpl")).read().replace("@REPO@", os.path.abspath(repo))
+    with open(os.path.join(dst, "Cargo.toml"), "w") as f:
+        f.write(t)
+    shutil.copy(os.path.join(src, "src", "main.rs"), os.path.join(dst, "src", "main.rs"))
+    lock = os.path.join(repo, "Cargo.lock")
+    if os.path.exists(lock) and not os.path.exists(os.path.join(dst, "Cargo.lock")):
+        shutil.copy(lock, os.path.join(dst, "Cargo.lock"))
+    env = dict(os.environ)
+    env["CARGO_NET_OFFLINE"] = "true"
+    env["CARGO_TARGET_DIR"] = os.path.join(dst, "target")
+    p = subprocess.run(["cargo", "run", "--offline", "-q", "--"] + list(ids), cwd=dst, env=env,
+                       stdout=subprocess.PIPE, stderr=subprocess.PIPE, text=True, timeout=900)
+    out = {}
+    for line in p.stdout.split("\n"):
+        m = re.match(r"(REPRODUCED|GONE) (\S+)\s*(.*)$", line)
+        if m:
+            out[m.group(2)] = (m.group(1) == "REPRODUCED", m.group(3))
+    for i in ids:
+        out.setdefault(i, (None, "demo did not run: " + p.stderr[-300:]))
+    return out
